@@ -100,7 +100,7 @@ def _pt(s: str, al) -> Ty:
         return Ty("fndef", name=s)
     if s.startswith("<"):
         # qualified path  <T as Trait>::Name  -> opaque associated type
-        return Ty("param", name=re.sub(r"\s+", " ", s))
+        return Ty("param", name=re.sub(r"\b(?:[a-z_][a-z0-9_]*::)+(?=[A-Z])", "", re.sub(r"\s+", " ", s)))
     # ordinary path with optional generic args on the last segment
     segs = split_top(s, "::")
     last = segs[-1]
